@@ -319,7 +319,7 @@ def work(chunk, cfg, bound):
 def main():
     tier = sys.argv[1] if len(sys.argv) > 1 else 'quick'
     rep = Report('C14', tier, 'model_checking')
-    bound = int(os.environ.get('C14_BOUND', 2 if tier == 'quick' else 3))
+    bound = int(os.environ.get('C14_BOUND', 2 if tier == 'quick' else 4))
     cfg = os.environ.get('C14_CFG', 'san')
     # size of each shape's all-CONTINUE walk (to split the first deviation index over workers)
     ex = Exec(exe(cfg))
